@@ -91,6 +91,9 @@ def body(case, rec):
     kind, invert, strategy = case["kind"], case["invert"], case["strategy"]
     t_rsmi, _, style = cg.corpus()[ti]
     s_rsmi = cg.corpus()[si][0]
+    if rx.slow_known(t_rsmi, kind, invert):
+        rec.label("excluded:known-h2-full-its-backward")
+        return
     facts = rx.reaction_facts(t_rsmi)
     r, p = s_rsmi.split(">>")
     substrate = cg.unmapped(p if invert else r)
@@ -169,6 +172,6 @@ def enum_own(tier):
 
 
 SUBS = [
-    Sub("pairs", body, strategy=strat, examples={"quick": 3000, "thorough": 60000}, shards={"quick": 16, "thorough": 16}),
+    Sub("pairs", body, strategy=strat, examples={"quick": 9000, "thorough": 90000}, shards={"quick": 16, "thorough": 16}),
     Sub("own_pairs", body, enum=lambda tier: enum_own(tier) if tier == "thorough" else [], exhaustive=("thorough",), shards={"quick": 1, "thorough": 16}),
 ]
